@@ -139,3 +139,14 @@ Theorem C17_flow_image_fits :
   /\ snd (flow_image_size upscale fit ori) = snd (flow_canvas_size maxcol upscale fit ori).
 Proof. exact flow_image_fits. Qed.
 Print Assumptions C17_flow_image_fits.
+
+(** *** the tie to the source, as a theorem (T): [gen/Pure.v] is regenerated from
+    [widget/_urwid.py] on every run by [harness/tx/tx_pure.py]; for ALL arguments the
+    translated [_ti_calc_trim] is the model's [calc_trim] *)
+From TI Require gen.Pure proofs.PureTieTrim.
+Theorem C17_source_calc_trim_is_model :
+  forall size image_size trim1 pad1 trim2 pad2,
+    TI.gen.Pure.ti_calc_trim size image_size trim1 pad1 trim2 pad2
+    = TI.model.Trim.calc_trim size image_size trim1 pad1 trim2 pad2.
+Proof. exact TI.proofs.PureTieTrim.ti_calc_trim_is_model. Qed.
+Print Assumptions C17_source_calc_trim_is_model.
